@@ -74,6 +74,18 @@ NEEDS = {
     "C14d": "three threads on one connection: receiver R holds the lock, W parks for its reply, a third thread's short serve() times out and clears the shared 'somebody is parked' flag; R then skips notify_all and W sleeps on",
     "C19d": "the integer 160 anywhere in a message (a by-value 160, or the 161st request whose sequence number is 160): immediate-int table made inclusive of 0xa0, 160 is sent as the single byte 0xf0",
     "C20d": "upload of a directory with a filter rejecting a sub-directory's name: os.walk's dirs list rebound instead of pruned in place, rejected directories are uploaded with their contents",
+    "C02e": "hash(proxy), then a change of the target that alters its hash, then hash(proxy) again on the SAME live proxy (directly or through a local dict/set): first HANDLE_HASH answer cached in the proxy",
+    "C05e": "PipeStream: one read(count) needing two or more os.read calls while bytes of the next frame are already in the pipe (fragmented arrival, or a frame > 64000 bytes with another behind it): chunk size hoisted out of the loop, later reads over-read",
+    "C06e": "one non-empty caller-owned config dict used for two or more connections in a process, one of them classic-mode: Connection adopts the dict instead of copying it, SlaveService's blanket permissions leak to the others",
+    "C09e": "the sender's two disclosure switches differing (include_local_traceback != include_local_version) and any exception raised while serving: the two switches passed to vinegar.dump in swapped positions",
+    "C11e": "a transport write failure while sending a request outside serve(), then reading conn.closed (or the idiom `if not conn.closed: conn.close()`): `closed` also true when only the channel is closed - reported closed with the hook not run and objects still held",
+    "C12e": "2 threads, A sends two messages, B one: A's second _send wins an 'uncontended fast path' try-lock in the two-line window between B's release and re-acquire while A's first message is still queued: per-thread order broken",
+    "C13e": "two threads requesting on one connection with one preemption inside _get_seq_id between read and store (plain int instead of itertools.count): same sequence number twice, callbacks overwritten, replies crossed / lost",
+    "C14e": "two threads: a waiter parked behind the receiver is notified after its reply was dispatched; instead of returning to look at its result it re-contends for the receive lock (while-loop around the try-lock) and polls the transport for its whole remaining expiry",
+    "C15e": "elapsed time between creating the connection and issuing a synchronous request: the configured timeout cached as ONE absolute deadline at connection creation",
+    "C16e": "connection A makes the server unbox a reference to a class and lies in its HANDLE_INSPECT answer; a later connection B passing the class with the same id_pack gets the poisoned proxy type: netref class cache made process-wide and never cleared",
+    "C17e": "ThreadPoolServer, a client that resets right after the server started tracking it: descriptor registered with the poller BEFORE the fd_to_conn entry exists; the poller's drop finds nothing, the accept thread then inserts an entry nobody will ever remove",
+    "C18e": "the same (host, port) registered under two names at different times, the clock such that one entry is stale and the other fresh, then a query for the stale name: pruning calls cmd_unregister (all names) instead of removing that one entry",
     "C18b": "register, advance the clock, re-register, advance: setdefault never refreshes the time stamp, live server pruned / wrong order",
 }
 
